@@ -340,7 +340,8 @@ class Gen:
             return "[%s]" % items
         if c == 2:
             v = self.name(INT_NAMES)
-            return "(/ (%s, %s = 1, %s) /)" % (X.render(X.minimal(self.num_tree(d - 1))), v, self.small_int())
+            return "(/ (%s, %s = 1, %s%s) /)" % (X.render(X.minimal(self.num_tree(d - 1))), v, self.small_int(),
+                                                  r.pick(["", "", ", 2", ", -1"]))
         return "[%s :: %s]" % (r.pick(["real", "integer", "real(kind = 8)"]), items)
 
     def num_atom(self, d):
@@ -649,6 +650,7 @@ class Gen:
             lambda: "data (%s(%s), %s = 1, 3) /1.0, 2.0, 3.0/" % (nm(ARR_NAMES), "i", "i"),
             lambda: "data %s /%s/, %s /%s/" % (nm(INT_NAMES), r.pick(["z'1F'", "b'101'", "o'17'"]), nm(INT_NAMES), r.pick(['Z"ff"', "B'0'"])),
             lambda: "data ((%s(i, j), i = 1, 2), j = 1, 3) /6*0/" % nm(ARR_NAMES),
+            lambda: "data (%s(i), i = 1, 9, 2) /5*1/, ((%s(i, j), i = 1, 4, 3), j = 2, 6, 2) /6*0.0/" % (nm(ARR_NAMES), nm(ARR_NAMES)),
             lambda: "data %s%%%s, %s(2) /1, 2*%s/" % (nm(OBJ_NAMES), nm(COMP_NAMES), nm(ARR_NAMES), r.pick(["0", "pi", "null()"])),
             lambda: "parameter (%s = %s)" % (nm(), self.expr("num", 1)),
             lambda: "allocatable {+:: }%s" % nm(ARR_NAMES),
@@ -806,7 +808,8 @@ class Gen:
                 items.append(r.pick(STR_LITS))
             else:
                 v = self.name(INT_NAMES)
-                items.append("(%s(%s), %s = 1, %s)" % (self.name(ARR_NAMES), v, v, self.small_int()))
+                items.append("(%s(%s), %s = 1, %s%s)" % (self.name(ARR_NAMES), v, v, self.small_int(),
+                                                        self.r.pick(["", "", ", 2", ", n"])))
         return ", ".join(items)
 
     def simple_exec(self, ctx):
